@@ -10,7 +10,7 @@ import sys
 import time
 import traceback
 
-from . import env
+from . import defaults, env
 
 VERIF = env.VERIF
 REPO = env.REPO
@@ -156,6 +156,8 @@ def evaluate(sub, case, rec=None, record=True):
         rec.evaluations += 1
     if TRACE is not None:
         TRACE.append(dict(subcheck=sub.name, case=json.loads(json.dumps(case, default=str))))
+    # half of the cases (a pure function of the case) leave out every option whose value is the documented default
+    defaults.ACTIVE = defaults.flag_for(case)
     try:
         sub.body(case, ctx)
     except Skip as s:
